@@ -489,6 +489,7 @@ def main(ctx):
         for fn in fns:
             if os.path.exists(fn):
                 os.unlink(fn)
+        nfd0 = len(os.listdir("/proc/self/fd"))
         ms = [dict(exists=False, delim=None, hdr=None, n=0, empty=False) for _ in (0, 1)]
         hs = [None, None]
         sfs = [None, None]
@@ -572,6 +573,8 @@ def main(ctx):
                     if r:
                         msg = "file %d (dtype %s), after closing the handle that was still open at the end of the history: %s" % (f, FDK[f], r)
                         break
+        if msg is None and len(os.listdir("/proc/self/fd")) != nfd0:
+            msg = "after the history and closing every handle %d file descriptor(s) are still open" % (len(os.listdir("/proc/self/fd")) - nfd0)
         raws = []
         for fn in fns:
             raws.append(hashlib.sha1(open(fn, "rb").read()).hexdigest() if os.path.exists(fn) else None)
